@@ -50,31 +50,62 @@ Proof.
   induction l1 as [|[b c] t IH]; intros l2 e; cbn [app enc_encode_list]; auto.
 Qed.
 
-Lemma rt_dfs_sound : forall depth cx e0 e p s,
-  e = enc_encode_list e0 (rev p) ->
+Lemma rt_dfs_0 : forall cx e p, rt_dfs O cx e p = rt_ok_from e cx (rev p) && true.
+Proof. reflexivity. Qed.
+Lemma rt_dfs_S : forall k cx e p, rt_dfs (S k) cx e p =
+  rt_ok_from e cx (rev p) &&
+  forallb (fun pr => rt_dfs k cx (enc_encode e (fst pr) (snd pr)) (pr :: p)) pairs4.
+Proof. reflexivity. Qed.
+
+Lemma rt_dfs_sound : forall depth cx e0 e p s full,
+  e = enc_encode_list e0 (rev p) -> full = rev p ++ s ->
   rt_dfs depth cx e p = true ->
   (length s <= depth)%nat -> Forall (fun pr => In pr pairs4) s ->
-  rt_ok_from (enc_encode_list e0 (rev p ++ s)) cx (rev p ++ s) = true.
+  rt_ok_from (enc_encode_list e0 full) cx full = true.
 Proof.
-  induction depth as [|k IH]; intros cx e0 e p s He H Hl Hs.
-  - destruct s; [|simpl in Hl; lia]. rewrite app_nil_r. rewrite <- He.
-    cbn [rt_dfs] in H. apply andb_true_iff in H. tauto.
-  - cbn [rt_dfs] in H. apply andb_true_iff in H. destruct H as [H0 H1].
-    destruct s as [|pr s]; [rewrite app_nil_r, <- He; exact H0|].
+  induction depth as [|k IH]; intros cx e0 e p s full He Hfull H Hl Hs.
+  - destruct s; [|simpl in Hl; lia]. rewrite app_nil_r in Hfull. rewrite Hfull, <- He.
+    rewrite rt_dfs_0 in H. apply andb_true_iff in H. destruct H as [H _]. exact H.
+  - rewrite rt_dfs_S in H. apply andb_true_iff in H. destruct H as [H0 H1].
+    destruct s as [|pr s]; [rewrite app_nil_r in Hfull; rewrite Hfull, <- He; exact H0|].
     inversion Hs as [|? ? Hpr Hs']; subst.
-    rewrite forallb_forall in H1. specialize (H1 pr Hpr).
-    replace (rev p ++ pr :: s) with (rev (pr :: p) ++ s)
-      by (cbn [rev]; rewrite <- app_assoc; reflexivity).
+    rewrite forallb_forall in H1. specialize (H1 pr Hpr). cbv beta in H1.
     apply (IH cx e0 (enc_encode (enc_encode_list e0 (rev p)) (fst pr) (snd pr)) (pr :: p) s);
-      [|exact H1 | simpl in Hl; lia | exact Hs'].
-    cbn [rev]. rewrite enc_encode_list_app. cbn [enc_encode_list].
-    destruct pr as [b c]. reflexivity.
+      [| |exact H1 | simpl in Hl; lia | exact Hs'].
+    + cbn [rev]. rewrite enc_encode_list_app. destruct pr as [b c]. reflexivity.
+    + cbn [rev]. rewrite <- app_assoc. reflexivity.
 Qed.
 
-Definition rt_all (L : nat) : bool := rt_dfs L [0; 0] (enc_new 2) [].
+Lemma enc_encode_list_rev_nil : forall e0 : enc, e0 = enc_encode_list e0 (rev []).
+Proof. reflexivity. Qed.
+Lemma rev_nil_app : forall s : list (Z * Z), s = rev [] ++ s.
+Proof. reflexivity. Qed.
 
+Lemma rt_dfs_sound0 : forall depth cx e0 s,
+  rt_dfs depth cx e0 [] = true ->
+  (length s <= depth)%nat -> Forall (fun pr => In pr pairs4) s ->
+  rt_ok_from (enc_encode_list e0 s) cx s = true.
+Proof.
+  intros depth cx e0 s H Hl Hs.
+  exact (rt_dfs_sound depth cx e0 e0 [] s s (enc_encode_list_rev_nil e0) (rev_nil_app s) H Hl Hs).
+Qed.
+
+Lemma rt_ok_from_true : forall e cx l, rt_ok_from e cx l = true ->
+  mq_decode_cx cx (enc_flush e) (map snd l) = Ok (map fst l).
+Proof.
+  intros e cx l H. unfold rt_ok_from in H.
+  destruct (mq_decode_cx cx (enc_flush e) (map snd l)); try discriminate.
+  apply zlist_eqb_eq in H. rewrite H. reflexivity.
+Qed.
+
+Lemma mq_encode_2 : forall l, mq_encode 2 l = enc_flush (enc_encode_list (enc_new 2) l).
+Proof. reflexivity. Qed.
+Lemma mq_decode_2 : forall d c, mq_decode 2 d c = mq_decode_cx [0; 0] d c.
+Proof. reflexivity. Qed.
+
+(* evaluated once, by the kernel's VM at Qed (vm_compute; reflexivity would evaluate twice) *)
 Lemma rt_all_9 : rt_dfs 9 [0; 0] (enc_new 2) [] = true.
-Proof. vm_compute. reflexivity. Qed.
+Proof. vm_cast_no_check (eq_refl true). Qed.
 
 Lemma decision2_in : forall p, decision_ok 2 p -> In p pairs4.
 Proof.
@@ -89,16 +120,10 @@ Theorem mq_roundtrip_bounded_9 : forall l : list (Z * Z),
   mq_decode 2 (mq_encode 2 l) (map snd l) = Ok (map fst l).
 Proof.
   intros l Hl Hd.
-  pose proof (rt_dfs_sound 9 [0; 0] (enc_new 2) (enc_new 2) [] l eq_refl rt_all_9 Hl) as H.
-  cbn [rev app] in H.
   assert (Hin : Forall (fun pr => In pr pairs4) l).
   { eapply Forall_impl; [|exact Hd]. intros p Hp. apply decision2_in. exact Hp. }
-  specialize (H Hin). unfold rt_ok_from in H.
-  unfold mq_decode, mq_encode, mq_encode_cx. cbn [zrepeat_nat].
-  change (enc_new_cx [0; 0]) with (enc_new 2).
-  destruct (mq_decode_cx [0; 0] (enc_flush (enc_encode_list (enc_new 2) l)) (map snd l));
-    try discriminate.
-  apply zlist_eqb_eq in H. rewrite H. reflexivity.
+  rewrite mq_encode_2, mq_decode_2. apply rt_ok_from_true.
+  exact (rt_dfs_sound0 9 [0; 0] (enc_new 2) l rt_all_9 Hl Hin).
 Qed.
 
 Theorem mq_roundtrip_partial : forall l : list (Z * Z),
